@@ -22,7 +22,7 @@ Definition futok (p : pc) (f : option bool) : Prop :=
   | BPark => f = Some true
   | LLSwap LDrop | LLLoad LDrop | LLSpin LDrop | DFix | DUnl | DLoad => f = Some false
   | Idle | TALoad ATry | TACas ATry _ | CS | UFand | LLSwap LWake | LLLoad LWake | LLSpin LWake
-  | WMark | WUnl _ | WWake _ => f <> Some true
+  | WMark | WUnl _ | WWake _ | WaitW => f <> Some true
   end.
 
 Definition InvP s := forall u, futok (pcs s u) (fut s u).
